@@ -226,6 +226,7 @@ type RunSummary struct {
 	Summaries    int                 `json:"pure_summaries"`
 	FactHits     int                 `json:"fact_hits"`
 	ModelHits    int                 `json:"model_hits"`
+	IntQ         int                 `json:"int_encoded_queries"`
 	CrossChecked int                 `json:"cross_checked"`
 	CrossUnknown int                 `json:"cross_unknown"`
 	Functions    []string            `json:"functions_encoded"`
@@ -238,6 +239,7 @@ type RunSummary struct {
 	WallS        float64             `json:"wall_s"`
 	MaxSteps     int64               `json:"max_steps_seen"`
 	Truncated    bool                `json:"truncated"`
+	AllPrefixes  []string            `json:"all_prefixes,omitempty"`
 }
 
 func runHarnesses(ld *Loaded, cfg *RunConfig, harnesses []string, workers int, maxPaths int, deadline time.Time) (*RunSummary, error) {
@@ -271,7 +273,7 @@ func runHarnesses(ld *Loaded, cfg *RunConfig, harnesses []string, workers int, m
 				mu.Unlock()
 				return
 			}
-			defer in.solver.Close()
+			defer func() { in.solver.Close(); in.isolver.Close() }()
 			for {
 				mu.Lock()
 				for len(queue) == 0 && active > 0 && !stop {
@@ -324,11 +326,11 @@ func runHarnesses(ld *Loaded, cfg *RunConfig, harnesses []string, workers int, m
 					if res.Outcome == "panic" || res.Outcome == "steplimit" {
 						// obtain a model of the path condition for replay
 						in.path = st
-						r := in.solver.Check(st.PC)
+						r := in.check(st.PC)
 						var m Model
 						if r == Sat {
 							in.captureModel()
-							in.solver.EndQuery()
+							in.endQuery()
 							m = st.LastModel
 						}
 						v := Violation{Kind: res.Outcome, Msg: res.Msg, Vector: in.vectorFromModel(m), Prefix: rep.Prefix, Stack: res.Stack}
@@ -349,9 +351,9 @@ func runHarnesses(ld *Loaded, cfg *RunConfig, harnesses []string, workers int, m
 						in.path = st
 						if len(st.PC) == 0 {
 							fm = Model{}
-						} else if r := in.solver.Check(st.PC); r == Sat {
+						} else if r := in.check(st.PC); r == Sat {
 							in.captureModel()
-							in.solver.EndQuery()
+							in.endQuery()
 							fm = st.LastModel
 						}
 						if fm != nil {
@@ -363,7 +365,9 @@ func runHarnesses(ld *Loaded, cfg *RunConfig, harnesses []string, workers int, m
 						}
 					}
 					for _, nv := range st.NoteVals {
-						if nv.B == nil {
+						if nv.Opq {
+							rep.Notes = append(rep.Notes, "note: <opaque>")
+						} else if nv.B == nil {
 							rep.Notes = append(rep.Notes, "note: "+nv.S)
 						} else if fm != nil {
 							memo := map[uint32]*Term{}
@@ -386,6 +390,9 @@ func runHarnesses(ld *Loaded, cfg *RunConfig, harnesses []string, workers int, m
 					queue = append(queue, WorkItem{Harness: item.Harness, Forced: s})
 				}
 				sum.Paths++
+				if cfg.Verbose {
+					sum.AllPrefixes = append(sum.AllPrefixes, rep.Outcome+":"+prefixKey(rep.Prefix))
+				}
 				sum.Outcomes[rep.Outcome]++
 				for _, l := range rep.Labels {
 					sum.Labels[l]++
@@ -431,10 +438,19 @@ func runHarnesses(ld *Loaded, cfg *RunConfig, harnesses []string, workers int, m
 			mu.Lock()
 			sum.BranchQ += in.stats.BranchQ
 			sum.AssertQ += in.stats.AssertQ
-			sum.Sat += in.solver.NSat
-			sum.Unsat += in.solver.NUnsat
-			sum.Unknown += in.solver.NUnknown
-			sum.SolverS += in.solver.Time.Seconds()
+			for _, sv := range []*Solver{in.solver, in.isolver} {
+				if sv == nil {
+					continue
+				}
+				sum.Sat += sv.NSat
+				sum.Unsat += sv.NUnsat
+				sum.Unknown += sv.NUnknown
+				sum.SolverS += sv.Time.Seconds()
+				if len(sv.Errors) > 0 && len(sum.SolverErrors) < 20 {
+					sum.SolverErrors = append(sum.SolverErrors, sv.Errors...)
+				}
+			}
+			sum.IntQ += in.stats.IntQ
 			sum.Instrs += in.stats.Instrs
 			sum.Summaries += in.stats.Summaries
 			sum.FactHits += in.stats.FactHits
@@ -446,9 +462,6 @@ func runHarnesses(ld *Loaded, cfg *RunConfig, harnesses []string, workers int, m
 			}
 			for k, v := range in.stubsUsed {
 				sum.Stubs[k] += v
-			}
-			if len(in.solver.Errors) > 0 && len(sum.SolverErrors) < 20 {
-				sum.SolverErrors = append(sum.SolverErrors, in.solver.Errors...)
 			}
 			mu.Unlock()
 		}(w)
